@@ -249,6 +249,9 @@ func (e *Engine) load(dirs []string, extra []string) error {
 			if fn == nil {
 				return fmt.Errorf("%s:%d: contract for unknown function %q in %s", c.File, c.Line, c.Func, pkg.PkgPath)
 			}
+			if _, dup := e.assumed[fn.String()]; dup {
+				return fmt.Errorf("%s:%d: %s has both a verified contract here and an assumed contract in /verif/contracts/assumed: callers would silently lose the assumed clauses; keep one", c.File, c.Line, fn.String())
+			}
 			e.fnOf[c] = fn
 			e.byFull[fn.String()] = c
 		}
